@@ -279,6 +279,14 @@ func (c06) Execute(sc *engine.Scenario) *engine.Result {
 			ok = false
 			return false
 		}
+		if a == 0xff0f && !dispatching {
+			// a request the hardware has raised is seen here for the first time: from now on it is set
+			// (nothing dispatches it: the master enable is clear) until it is written
+			if seen := got & ref.IFDirty & 0x1f &^ ref.IF; seen != 0 {
+				ref.IF |= seen
+				res.Probe("if_request_raised_by_hardware_observed")
+			}
+		}
 		switch cls {
 		case "echo":
 			res.Probe("echo_checked")
